@@ -26,6 +26,8 @@ class Scen(CompScenario):
         self.top.add("dut", self.dut)
         self.caller("write", self.dut.write)
         self.caller("read", self.dut.read)
+        if self.cfg.get("twin"):
+            self.twin("read", self.dut.read)
         self.caller("peek", self.dut.peek)
         self.caller("clear", self.dut.clear)
         # reference model: one slot holding (sequence number of the write, value) or None
@@ -64,10 +66,11 @@ class Scen(CompScenario):
             name = f"write.i.{f}"
             w = self.widths[name]
             stim[name] = (self.tag if k == 0 else rng.getrandbits(w)) & ((1 << w) - 1)
-        return stim
+        return self.twin_stim(rng, stim)
 
     # ---- oracle -----------------------------------------------------------------------------
     def check(self, cyc, stim, obs):
+        stim, obs = self.fold_twins(stim, obs)
         buf = self.buf
         full = buf is not None
         en = {p: stim.get(f"{p}.en", 0) for p in PORTS}
@@ -221,7 +224,7 @@ class Prop(PropBase):
             layout.append(["aux", rng.choice([1, 3, 8])])
         cycles = rng.randint(80, 400 if big else 240)
         kinds = ["random", "random", "sweep", "sweep", "stream", "stall", "starve", "flush", "idle"]
-        return {"cls": cls, "layout": layout, "cycles": cycles, "sched": rng.choice(["eager", "eager", "rr"]),
+        return {"cls": cls, "layout": layout, "cycles": cycles, "twin": int(rng.random() < 0.3), "sched": rng.choice(["eager", "eager", "rr"]),
                 "plan": make_plan(rng, cycles, kinds, min_len=4, max_len=32)}
 
     def make(self, cfg):
@@ -231,7 +234,7 @@ class Prop(PropBase):
         return {"cls": cfg["cls"], "port": (viol.get("info") or {}).get("port")}
 
     def cfg_signature(self, cfg):
-        return [cfg["cls"], cfg["layout"], cfg["sched"]]
+        return [cfg["cls"], cfg["layout"], cfg["sched"], cfg.get("twin", 0)]
 
     def shrink_cfg(self, cfg):
         if len(cfg["layout"]) > 1:
